@@ -172,7 +172,7 @@ class Result(dict):
 
     @property
     def crashed(self):
-        return self.get("status") in ("panic", "died", "blowup")
+        return self.get("status") in ("panic", "died", "blowup", "stall")
 
 
 def _limits():
@@ -273,7 +273,7 @@ class Worker:
                     if repeat > 1:
                         r["reps"] = reps
                     return r
-            elif t in ("blowup", "wallclock"):
+            elif t in ("blowup", "wallclock", "stall"):
                 special = ev
             elif t == "error":
                 return Result(status="harness", msg=ev.get("msg"))
@@ -283,7 +283,8 @@ class Worker:
         self.restarts += 1
         if special is not None:
             return Result(status=special["ev"], elem_evals=special.get("elem_evals"),
-                          expr_evals=special.get("expr_evals"), max=special.get("max"), rc=rc)
+                          expr_evals=special.get("expr_evals"), max=special.get("max"), rc=rc,
+                          cpu_ms_without_progress=special.get("cpu_ms_without_progress"))
         return Result(status="died", rc=rc, sig=(-rc if rc < 0 else None), called=called)
 
     def run_threads(self, jobs, nthreads):
